@@ -168,11 +168,18 @@ func TestVerifC19(t *testing.T) {
 		be.mu.Unlock()
 		var sb strings.Builder
 		// a client may also name headers in Connection to have a proxy strip them as hop-by-hop
-		connHdr := []string{"close", "close", "close, X-Connecting-Ip", "close, X-Connecting-IP, X-Request-Id", "X-Connecting-Ip, close"}[rng.Intn(5)]
+		// (also spread over several field lines, the first of which may be empty)
+		connLines := [][]string{{"close"}, {"close"}, {"close, X-Connecting-Ip"}, {"close, X-Connecting-IP, X-Request-Id"},
+			{"X-Connecting-Ip, close"}, {"", "X-Connecting-Ip", "close"}, {" ", "X-Request-Id, X-Connecting-Ip", "close"},
+			{"close", "X-Connecting-Ip"}}[rng.Intn(8)]
+		connHdr := strings.Join(connLines, " | ")
 		if connHdr != "close" {
 			hdrs = append(hdrs, "Connection:"+connHdr)
 		}
-		fmt.Fprintf(&sb, "%s %s HTTP/1.1\r\nHost: verif.example\r\nConnection: %s\r\n", method, rawPath, connHdr)
+		fmt.Fprintf(&sb, "%s %s HTTP/1.1\r\nHost: verif.example\r\n", method, rawPath)
+		for _, cl := range connLines {
+			fmt.Fprintf(&sb, "Connection: %s\r\n", cl)
+		}
 		for _, hn := range hdrs {
 			if strings.HasPrefix(hn, "Connection:") {
 				continue
